@@ -209,7 +209,10 @@ def run_case(ck, desc):
             cols = {c_: (P if c_ == "pressure" else np.insert(v_, k_ + 1, np.interp(p_new, P_old, v_))) for c_, v_ in cols.items()}
             ck.count("tables_with_rows_a_quarter_psi_apart")
     params = RelPermParams(*desc["relperm"])
-    df_kr = relative_permeabilities_twophase(params, Sw)
+    Sw_kr = Sw if int(phi * 1e4) % 4 != 1 else max(0.0, Sw - 0.07)  # (a table made for another connate water saturation)
+    df_kr = relative_permeabilities_twophase(params, Sw_kr)
+    if Sw_kr != Sw:
+        ck.count("rel_perm_tables_made_for_another_water_saturation")
     full_tab = pd.DataFrame(cols)
     if int(phi * 1e4) % 2 == 0:
         # a relative-permeability table with MOBILE water (built with the public three-phase function,
